@@ -34,6 +34,18 @@ var Budget int64
 // BudgetExceeded is the panic value raised when Budget runs out.
 type BudgetExceeded struct{}
 
+// Spend charges n steps to the budget (file-system calls are charged by vos, so that a loop
+// whose iterations are mostly system calls exhausts the budget quickly too).
+func Spend(n int64) {
+	if Budget > 0 {
+		Budget -= n
+		if Budget <= 0 {
+			Budget = 0
+			panic(BudgetExceeded{})
+		}
+	}
+}
+
 func pre(kind string, p unsafe.Pointer) {
 	if !sched.Active() {
 		if Budget > 0 {
